@@ -66,6 +66,9 @@ def check(run):
     run.oblige("build:harness", binp is not None, err or "")
     if binp is None or not lib.driver_path().exists():
         return
+    # L1: the IP address kernels against their Lean models (Props/C10: kernel theorems)
+    import hostcorr
+    hostcorr.explore(run, binp, 3000 if run.tier == "quick" else 60000)
     n = 24000 if run.tier == "quick" else 200000
     cases = host_cases(run.rng, n)
     res = urlcorr.explore(run, binp, cases)
